@@ -204,3 +204,11 @@ package types
 //@   noeffect
 //@ func EventEmitter.RemoveAllListeners(evt)
 //@   noeffect
+
+// DoWrite runs the caller's function on the elements under the write lock and stores what it returns. The only
+// in-repo use (socket.clearTransport) passes a function that runs the registered cleanup callbacks, which remove
+// listeners; listener registries are not part of the verified state.
+//@ func (*Slice).DoWrite(op)
+//@   trusted "callback-taking container method: the callback is assumed to touch listener registries only"
+//@   requires s != nil
+//@   modifies s.elements
